@@ -96,6 +96,32 @@ Flatten(a) == IF a.group THEN [a EXCEPT !.group = FALSE, !.data = EncAvps(a.memb
 FlattenMsg(m) == [m EXCEPT !.avps = [i \in 1..Len(m.avps) |-> Flatten(m.avps[i])]]
 
 ----------------------------------------------------------------------------
+(* Dictionary view of decoded content (C02): what DiameterMessage.load must  *)
+(* return.  K is the dictionary as a function from known keys <<vendor,     *)
+(* code>> to [name, flags, grouped]; unknown keys stay generic AVPs          *)
+(* ("DiameterAVP").  Dev is the set of enabled deviations:                   *)
+(*   "D_Reflag" -- known finding: a known AVP is re-created from its data    *)
+(*   only, so the flags on the wire are replaced by the class defaults       *)
+(*   (bromelia/base.py DiameterAVP.load, `_avp_class(avp.data)`).            *)
+RECURSIVE ViewAvps(_, _, _, _)
+ViewAvp(a, K, Dev, depth) ==
+    LET key == <<a.vendor, a.code>>
+        known == key \in DOMAIN K
+        fl == IF known /\ "D_Reflag" \in Dev THEN K[key].flags ELSE a.flags
+    IN IF known /\ K[key].grouped /\ depth > 0 /\ DecAvps(a.data).ok
+       THEN [code |-> a.code, flags |-> fl, vendor |-> a.vendor, data |-> <<>>, group |-> TRUE,
+             cls |-> K[key].name, members |-> ViewAvps(DecAvps(a.data).val, K, Dev, depth - 1)]
+       ELSE [code |-> a.code, flags |-> fl, vendor |-> a.vendor, data |-> a.data, group |-> FALSE,
+             cls |-> IF known THEN K[key].name ELSE "DiameterAVP", members |-> <<>>]
+ViewAvps(as, K, Dev, depth) == [i \in 1..Len(as) |-> ViewAvp(as[i], K, Dev, depth)]
+ViewMsgs(ms, K, Dev, depth) == [i \in 1..Len(ms) |-> [h |-> ms[i].h, avps |-> ViewAvps(ms[i].avps, K, Dev, depth)]]
+\* what decoding the stream b must yield, and what re-serialising the result must give
+DecodeView(b, K, Dev, depth) == ViewMsgs(DecMsgs(b).val, K, Dev, depth)
+ReDump(b, K, Dev, depth) == EncMsgs(DecodeView(b, K, Dev, depth))
+\* intended design: no deviation => byte-identical
+ThmReDumpIdentity(b, K, depth) == WellFormed(b) => ReDump(b, K, {}, depth) = b
+
+----------------------------------------------------------------------------
 (* Model-level theorems, checked by TLC on bounded universes (Gen_Wire modules). *)
 ThmLen4(m) == Len(EncMsg(m)) % 4 = 0
 ThmMsgLenField(m) == Val3(Slice(EncMsg(m), 2, 4)) = Len(EncMsg(m))
